@@ -254,17 +254,26 @@ func ruleSuffixBitsReported(c *Ctx) {
 	rule := c.Prop + "/suffix-bits-reported"
 	sb := P.Field("github.com/pingcap/kvproto/pkg/pdpb", "Timestamp", "SuffixBits")
 	gen := F(P.Method(tso, "timestampOracle", "generateTSO"))
-	diff := F(P.Method(tso, "timestampOracle", "differentiateLogical"))
+	isDiff, widthOf := differentiated(P)
 	for _, fn := range []*ssa.Function{P.Method(tso, "timestampOracle", "getTS"), P.Method(tso, "GlobalTSOAllocator", "GenerateTSO")} {
 		c.saw(fnName(fn))
 		var width ssa.Value
-		for _, ci := range callsIn(fn, false, gen, diff) {
+		for _, ci := range callsIn(fn, false, gen) {
 			args := callArgs(ci.Common())
 			if len(args) == 2 {
 				if z, isC := constInt(args[1]); isC && z == 0 {
 					continue
 				}
 				width = args[1]
+			}
+		}
+		for _, b := range fn.Blocks {
+			for _, ins := range b.Instrs {
+				if v, ok := ins.(ssa.Value); ok && isDiff(v) {
+					if w := widthOf(v); w != nil {
+						width = w
+					}
+				}
 			}
 		}
 		stores := storesToField(fn, sb)
@@ -276,20 +285,29 @@ func ruleSuffixBitsReported(c *Ctx) {
 			c.Check(derivesFrom(st.Val, same(width), 3), rule, "SuffixBits reported by "+fnName(fn), "is the width that was used to shift the logical part", P.instrPos(st), "reported width differs from the shift width")
 		}
 	}
-	// differentiateLogical = raw << bits + suffix
-	d := P.Method(tso, "timestampOracle", "differentiateLogical")
+	// differentiation = raw << bits + suffix of this allocator, in the helper or in place
 	suffix := P.Field(tso, "timestampOracle", "suffix")
 	okShape := false
-	for _, b := range d.Blocks {
-		for _, ins := range b.Instrs {
-			if bo, ok := ins.(*ssa.BinOp); ok && bo.Op == token.ADD {
-				if sh, ok := strip(bo.X).(*ssa.BinOp); ok && sh.Op == token.SHL && derivesFrom(bo.Y, loadOfField(suffix), 3) {
-					okShape = true
+	var where []*ssa.Function
+	if d := P.methodOpt(tso, "timestampOracle", "differentiateLogical"); d != nil {
+		where = append(where, d)
+	} else {
+		where = append(where, P.Method(tso, "timestampOracle", "generateTSO"), P.Method(tso, "GlobalTSOAllocator", "GenerateTSO"))
+	}
+	nShape := 0
+	for _, d := range where {
+		for _, b := range d.Blocks {
+			for _, ins := range b.Instrs {
+				if bo, ok := ins.(*ssa.BinOp); ok && bo.Op == token.ADD {
+					if sh, ok := strip(bo.X).(*ssa.BinOp); ok && sh.Op == token.SHL && derivesFrom(bo.Y, loadOfField(suffix), 3) {
+						nShape++
+					}
 				}
 			}
 		}
 	}
-	c.Check(okShape, rule, "differentiateLogical", "logical<<suffixBits + suffix", P.pos(d.Pos()), "")
+	okShape = nShape >= len(where)
+	c.Check(okShape, rule, "differentiateLogical", "logical<<suffixBits + suffix", P.pos(where[0].Pos()), "")
 	// GetSuffixBits = CalSuffixBits(maxSuffix)
 	gs := P.Method(tso, "AllocatorManager", "GetSuffixBits")
 	maxSuffix := P.Field(tso, "AllocatorManager", "mu", "maxSuffix")
